@@ -1028,7 +1028,8 @@ func (m *StateMachine) handleProposalViewUpdate(
 			// We skipped straight to awaiting precommits,
 			// so nothing else will ask the consensus strategy for our precommit in this round.
 			// Ask as soon as the prevote we just requested has been recorded.
-			rlc.PrecommitDueAfterPrevote = true
+			// A state machine that does not vote has no precommit to decide.
+			rlc.PrecommitDueAfterPrevote = m.isParticipating(rlc)
 
 			return
 		}
